@@ -258,6 +258,8 @@ def const(node, env=None):
         if t in env:
             return env[t]
         raise NotConst(t)
+    if isinstance(node, ast.Call) and env and norm(node) in env:
+        return env[norm(node)]          # e.g. {'len(data)': 2}: case analysis over a call the rule has bounded
     if isinstance(node, ast.Compare):
         left = const(node.left, env)
         for op, c in zip(node.ops, node.comparators):
